@@ -804,24 +804,19 @@ def run(ctx):
     tablechecks_stream(ctx)
     validate_stream(ctx)
     subst_stream(ctx, 1500 if ctx.tier == "quick" else 20000)
-    judge_jobs(ctx, "systematic", systematic_cases(ctx))
+    all_recs = judge_jobs(ctx, "systematic", systematic_cases(ctx))
     n = 700 if ctx.tier == "quick" else 9000
     cases = []
     for i in range(n):
         err = ctx.rng.choice(ERRORS) if ctx.rng.random() < 0.22 else None
         cases.append(gen_case(ctx, ctx.rng, error=err))
     for k in range(0, len(cases), 1500):
-        judge_jobs(ctx, "random", cases[k : k + 1500])
+        all_recs += judge_jobs(ctx, "random", cases[k : k + 1500])
         ctx.check_time()
     if ctx.tier == "thorough":
-        # executed-artefact oracle: clean-domain jobs only (faulty ones are refused before any code exists)
-        sample = [c for c in systematic_cases(ctx) if len(c["items"]) == 1][:16]
-        k = 0
-        while len(sample) < 60 and k < len(cases):
-            c = cases[k]
-            k += 1
-            if all(flt_ok for flt_ok in [True]) and not any(a for u, _ in uses_of(c) for a in u["args"] if "s" not in a) and len(u_ := uses_of(c)) == len([1 for u, _ in u_ if len(u["args"]) == 1]):
-                sample.append(c)
+        # executed-artefact oracle on jobs of the clean domain (faulty ones are refused before any code exists)
+        good = [r["case"] for r in all_recs if not r["bad"] and r["ok"] and not r["impl"].get("rejected") and all(r["spec"].get("filters", {}).values())]
+        sample = [c for c in good if len(uses_of(c)) == 1][:18] + [c for c in good if len(uses_of(c)) > 1][:52]
         exec_stream(ctx, sample)
         ctx.check_time()
     ctx.extra_cov["exhaustive"] = False
@@ -886,7 +881,18 @@ def search(ctx, broken):
     known = {e["key"] for e in ctx.known_entries("known")}
     bad = [r for r in bad if case_key(r["case"]) not in known]
     if not bad:
-        # the metadata stream as a judge
+        # second judge: the compiled job against the mock event store (every built-in alone)
+        ex = exec_stream(ctx, [c for c in cases if len(uses_of(c)) == 1 and not c["mds"]][:20], report=False)
+        exbad = [e for e in ex if not e["ok"]]
+        if exbad:
+            e = exbad[0]
+            return {
+                "key": "exec:" + case_key(e["case"]) + "|missing=" + repr(e["fails"]),
+                "what": "the compiled job does not ask the (mock) event store for exactly the requested (container type, bank) pairs / does not end the event at the missing bank",
+                "case": {**e["case"], "missing_banks": e["fails"]},
+                "observed": {"query": query_src(e["case"]), "log": e["run"]["log"][:40], "rc": e["run"]["rc"], "expected_requests": e["expected"]},
+                "replay_how": "./check C06 --replay <this file>",
+            }
         return None
     best = min(bad, key=lambda r: len(query_src(r["case"])))
     case = shrink(ctx, best["case"])
@@ -921,6 +927,13 @@ def replay(ctx, rep) -> int:
         for t in hit:
             print(json.dumps(t["case"], indent=1)[:2000])
         return 1 if hit else 0
+    if isinstance(case, dict) and "missing_banks" in case:
+        c = {k: v for k, v in case.items() if k != "missing_banks"}
+        ctx.rng.choice = lambda seq: next((u for u in seq if isinstance(u, dict) and u.get("args") and u["args"][0].get("s") in case["missing_banks"]), seq[0])  # the same missing bank again
+        ex = exec_stream(ctx, [c], report=False)
+        for e in ex:
+            print("missing:", e["fails"], "holds:", e["ok"], "log:", e["run"]["log"][:30], e["run"]["stderr"][-300:])
+        return 0 if ex and all(e["ok"] for e in ex) else 1
     if not isinstance(case, dict) or "backend" not in case:
         print("replay file carries no job case:", json.dumps(rep)[:400])
         return 1
